@@ -18,7 +18,7 @@ LEVEL = 'other'
 MANIFEST = {
     'engine': 'pysym',
     'level': 'other',
-    'technique': 'necessary-condition lemmas of push-down safety: symbolic execution of check_use_limit and of the outer re-application, exhaustive case analysis of boolean contexts and join kinds on the real decision functions',
+    'technique': 'necessary-condition lemmas of push-down safety: symbolic execution of check_use_limit and of the outer re-application, exhaustive case analysis of boolean contexts and join kinds on the real decision functions; pysym lemmas on where per-table conditions come from (top-level conjuncts) and how they are combined; plan_union contract with bag-semantics soundness of changed flags; three-valued path analysis up to depth 3/4 as bounded stand-in',
     'text': 'Only necessary conditions for plan/query equivalence are decided (relational-algebra side conditions L1-L4 on LIMIT, selection and '
             'semi-join push-down); they are decided for all queries of the stated shape classes. Violations on the unchanged tree are genuine '
             'defects with replayed witness queries (known findings). End-to-end equivalence over data is NOT decided.',
